@@ -486,6 +486,8 @@ def convert_cases(draw, inelastic=False, transposed=False):
     wdtype = draw(st.sampled_from(["float64", "float64", "float32"]))
     case = {
         "origin": origin, "target": target, "scatter": scatter,
+        # the flag as a numpy bool (what `np.any(...)` or a comparison hands over), seeded/C06-s6
+        "scatter_form": draw(st.sampled_from(["bool", "bool", "np.bool_"])),
         "grid": grid, "pix_shape": pix_shape, "nx": nx,
         "layout": lay,
         "evdtype": evdtype, "unit": unit,
@@ -844,7 +846,8 @@ def start_convert(case, da, parent, pix_dims, tag="", detach=False):
     else:
         arg = da
     try:
-        out = scn.convert(arg, origin=origin, target=target, scatter=scatter)
+        flag = np.bool_(scatter) if case.get("scatter_form") == "np.bool_" else scatter
+        out = scn.convert(arg, origin=origin, target=target, scatter=flag)
     except sc.DTypeError as exc:
         if case["evdtype"] != "int32":
             raise
